@@ -6,6 +6,8 @@
 #include "ref_text.h"
 #include "ref_unicode.h"
 #include "gen_text.h"
+#include "gen_scale.h"
+#include "ambient.h"
 
 using vrt::Rng;
 using vrt::sfmt;
@@ -19,6 +21,17 @@ static std::string showv(const std::vector<S> &v)
     for (size_t i = 0; i < v.size() && i < 12; ++i) { if (i) o += "|"; o += show(v[i]); }
     if (v.size() > 12) o += sfmt("|...(%zu pieces)", v.size());
     return o + "]";
+}
+
+// where two piece lists first differ (for results with thousands of pieces / pieces of hundreds of KiB)
+static std::string diffv(const std::vector<S> &got, const std::vector<S> &want)
+{
+    size_t i = 0;
+    while (i < got.size() && i < want.size() && got[i] == want[i]) ++i;
+    std::string o = sfmt("pieces: got %zu want %zu; first difference at piece #%zu", got.size(), want.size(), i);
+    if (i < got.size()) o += " got[" + scale::brief(got[i]) + "]";
+    if (i < want.size()) o += " want[" + scale::brief(want[i]) + "]";
+    return o;
 }
 
 enum Outcome { OK, UNICODE_ERROR, FAILED };
@@ -93,6 +106,7 @@ static void split_case(const vrt::Box<ST::string> &st, const S &s, const S &sep,
     ST::case_sensitivity_t cs = ci ? ST::case_insensitive : ST::case_sensitive;
     const std::vector<S> want = ref::split(s, sep, max, ci);
     std::string what = sfmt("subject=%s sep=%s max=%zu ci=%d", show(s).c_str(), show(sep).c_str(), max, ci);
+    if (s.size() > 96) what += " [subject " + scale::brief(s) + sfmt(", sep len=%zu]", sep.size());
     std::vector<S> got;
     auto judge = [&](const char *form, Outcome o, bool may_throw) {
         if (o == FAILED) return;
@@ -105,7 +119,8 @@ static void split_case(const vrt::Box<ST::string> &st, const S &s, const S &sep,
             return;
         }
         if (got != want)
-            vrt::violation(sfmt("C09:split:%s:wrong-pieces", form), sfmt("%s got=%s want=%s", what.c_str(), showv(got).c_str(), showv(want).c_str()));
+            vrt::violation(sfmt("C09:split:%s:wrong-pieces", form), sfmt("%s got=%s want=%s%s", what.c_str(), showv(got).c_str(), showv(want).c_str(),
+                                                                         s.size() > 96 ? (" " + diffv(got, want)).c_str() : ""));
         if (max != SMAX && got.size() > max + 1)
             vrt::violation(sfmt("C09:split:%s:too-many-pieces", form), sfmt("%s pieces=%zu", what.c_str(), got.size()));
         if (!ci && ref::join(got, sep) != s)
@@ -140,6 +155,8 @@ static void split_case(const vrt::Box<ST::string> &st, const S &s, const S &sep,
     }
     vrt::count("split.cases");
     if (want.size() > 1) vrt::count("split.with_cuts");
+    if (want.size() > 255) vrt::count("split.pieces>255");
+    if (want.size() > 65535) vrt::count("split.pieces>65535");
     if (max != SMAX && ref::split(s, sep, SMAX, ci).size() > max + 1) vrt::count("split.limited_by_max");
     if (sep.empty()) vrt::count(s.find('\0') != S::npos ? "split.empty_sep_on_NUL_text" : "split.empty_sep");
     if (sep.size() > s.size()) vrt::count("split.sep_longer_than_subject");
@@ -153,6 +170,7 @@ static void replace_case(const vrt::Box<ST::string> &st, const S &s, const S &fr
     size_t k = 0;
     const S want = ref::replace(s, from, to, ci, &k);
     std::string what = sfmt("subject=%s from=%s to=%s ci=%d", show(s).c_str(), show(from).c_str(), show(to).c_str(), ci);
+    if (s.size() > 96) what += " [subject " + scale::brief(s) + sfmt(", from len=%zu, to len=%zu, %zu occurrences]", from.size(), to.size(), k);
     if (want.size() != s.size() + k * to.size() - k * from.size()) {
         vrt::violation("harness:replace-reference-length", what);   // reference self-check
         return;
@@ -169,8 +187,11 @@ static void replace_case(const vrt::Box<ST::string> &st, const S &s, const S &fr
             else vrt::count("replace.revalidation_rejected");
             return;
         }
-        if (g != want)
-            vrt::violation(sfmt("C09:replace:%s:wrong-result", form), sfmt("%s got=%s want=%s", what.c_str(), show(g).c_str(), show(want).c_str()));
+        if (g != want) {
+            const size_t fd = scale::first_diff(g, want);
+            vrt::violation(sfmt("C09:replace:%s:wrong-result", form), s.size() <= 96 ? sfmt("%s got=%s want=%s", what.c_str(), show(g).c_str(), show(want).c_str())
+                           : sfmt("%s got: %s; want: %s; first difference at result offset %zu", what.c_str(), scale::brief(g, fd).c_str(), scale::brief(want, fd).c_str(), fd));
+        }
     };
     // poison differential: bytes that differ between two runs with different
     // fresh-memory fill were never written (the two scans of replace disagree)
@@ -232,6 +253,8 @@ static void replace_case(const vrt::Box<ST::string> &st, const S &s, const S &fr
     vrt::count("replace.cases");
     if (k) vrt::count("replace.with_matches");
     if (k > 1) vrt::count("replace.multiple_matches");
+    if (k >= 1000) vrt::count("replace.occurrences>=1000");
+    if (k > 65535) vrt::count("replace.occurrences>65535");
     if (to.size() > from.size() && k) vrt::count("replace.grows");
     if (to.size() < from.size() && k) vrt::count("replace.shrinks");
     if (from.empty()) vrt::count("replace.empty_pattern");
@@ -244,21 +267,99 @@ static void tokenize_case(const vrt::Box<ST::string> &st, const S &s, const S *d
 {
     S set = delims ? *delims : S(" \t\r\n");
     std::string what = sfmt("subject=%s delims=%s%s", show(s).c_str(), show(set).c_str(), delims ? "" : "(default)");
+    if (s.size() > 96) what += " [subject " + scale::brief(s) + "]";
     const std::vector<S> want = ref::tokenize(s, set);
     std::vector<S> got;
     vrt::Exact<char> c(set.data(), set.size(), true);
     Outcome o = call_vec("tokenize", what, [&] { return delims ? st->tokenize(c.data()) : st->tokenize(); }, got);
     if (o == UNICODE_ERROR) vrt::violation("C09:tokenize:unexpected-unicode_error", what);
     else if (o == OK && got != want)
-        vrt::violation("C09:tokenize:wrong-tokens", sfmt("%s got=%s want=%s", what.c_str(), showv(got).c_str(), showv(want).c_str()));
+        vrt::violation("C09:tokenize:wrong-tokens", sfmt("%s got=%s want=%s%s", what.c_str(), showv(got).c_str(), showv(want).c_str(),
+                                                         s.size() > 96 ? (" " + diffv(got, want)).c_str() : ""));
     vrt::count("tokenize.cases");
+    if (want.size() > 255) vrt::count("tokenize.tokens>255");
+    if (want.size() > 65535) vrt::count("tokenize.tokens>65535");
     if (want.size() > 1) vrt::count("tokenize.multiple_tokens");
     if (want.empty() && !s.empty()) vrt::count("tokenize.only_delimiters");
     vrt::distinct(vrt::fnv1a(set.data(), set.size(), vrt::fnv1a(s.data(), s.size(), 23)));
 }
 
+
+// ---------------------------------------------------------------- generators of the scale phase
+// len bytes drawn from `alphabet`
+static S fill_random(Rng &r, size_t len, const S &alphabet)
+{
+    S s(len, '\0');
+    for (size_t i = 0; i < len;) {
+        uint64_t v = r.next();
+        for (int k = 0; k < 8 && i < len; ++k, v >>= 8) s[i++] = alphabet[(v & 0xFF) % alphabet.size()];
+    }
+    return s;
+}
+// backgrounds that cannot match a separator over a disjoint alphabet: ASCII (constant / random), well-formed UTF-8 with two-byte
+// characters (so that replace's result stays valid and is compared, not rejected), raw high bytes
+struct Background {
+    S alphabet;       // the bytes it may contain
+    bool utf8_pairs;  // "x" and U+00E9 mixed; occurrences planted into it get their edges repaired
+};
+static S make_background(Rng &r, size_t len, const Background &bg)
+{
+    if (!bg.utf8_pairs) return r.chance(1, 3) ? S(len, bg.alphabet[r.below(bg.alphabet.size())]) : fill_random(r, len, bg.alphabet);
+    S s;
+    s.reserve(len + 2);
+    while (s.size() < len) {
+        uint64_t v = r.next();
+        for (int k = 0; k < 32 && s.size() < len; ++k, v >>= 2) {
+            if ((v & 3) && s.size() + 2 <= len) s += "\xc3\xa9";
+            else s += 'x';
+        }
+    }
+    return s;
+}
+// overwrite [at, at+piece) and keep a two-byte-character background well formed around it
+static void plant_in(S &h, size_t at, const S &piece, const Background &bg)
+{
+    for (size_t k = 0; k < piece.size(); ++k) h[at + k] = piece[k];
+    if (!bg.utf8_pairs) return;
+    if (at > 0 && static_cast<unsigned char>(h[at - 1]) == 0xC3) h[at - 1] = 'x';
+    if (at + piece.size() < h.size() && static_cast<unsigned char>(h[at + piece.size()]) == 0xA9) h[at + piece.size()] = 'x';
+}
+static Background pick_background(Rng &r, const S &avoid)
+{
+    static const char *const ascii[] = {"x", "xy", "xyz.", "@[", "X", "x "};
+    static const char *const raw[] = {"\xff", "\xe9\xeb", "\xe9"};
+    for (;;) {
+        Background bg;
+        const unsigned k = static_cast<unsigned>(r.below(8));
+        bg.utf8_pairs = k == 5 || k == 6;
+        bg.alphabet = bg.utf8_pairs ? S("x\xc3\xa9") : k == 7 ? S(raw[r.below(3)]) : S(ascii[r.below(6)]);
+        bool clash = false;
+        for (unsigned char x : bg.alphabet) for (unsigned char y : avoid) if (ref::fold(x) == ref::fold(y)) clash = true;
+        if (!clash) return bg;
+    }
+}
+// an occurrence of n as the text spells it: exactly, or (when the case is mixed) with its ASCII letters in the other case
+static S spelled(Rng &r, const S &n, bool exact)
+{
+    if (exact || r.chance(1, 3)) return n;
+    return r.chance(1, 2) ? ref::uppered(n) : ref::folded(n);
+}
+// a byte that is NOT in `set` but equals a member modulo 128 / modulo 64
+static bool alias_of_member(Rng &r, const S &set, char &out)
+{
+    if (set.empty()) return false;
+    for (int tries = 0; tries < 16; ++tries) {
+        const unsigned m = static_cast<unsigned char>(set[r.below(set.size())]);
+        const unsigned cand[4] = {m ^ 0x80u, (m & 0x3Fu) | 0x80u, (m & 0x3Fu) | 0xC0u, m ^ 0x40u};
+        const unsigned c = cand[r.below(4)];
+        if (c != 0 && !ref::in_set(set, static_cast<char>(c))) { out = static_cast<char>(c); return true; }
+    }
+    return false;
+}
+
 static void body()
 {
+    ambient::enable(3);
     vrt::require("split.cases", 1000);
     vrt::require("split.with_cuts", 500);
     vrt::require("split.limited_by_max", 100);
@@ -331,6 +432,7 @@ static void body()
         case 2: al = "ab, \t\xc3\xa9"; break;
         default: al = "aA,"; al.push_back('\0'); break;
         }
+        if (r.chance(1, 6)) al = r.chance(2, 3) ? S("iI,;x") : S("iI\xc9\xe9,");     // letters / bytes that locale-dependent case mapping treats differently
         S s = gen::bytes_over(r, gen::pick_len(r) % 80, al);
         S sep;
         switch (r.below(7)) {
@@ -404,6 +506,315 @@ static void body()
         S empty;
         if (r.chance(1, 20)) tokenize_case(st, s, &empty);
     });
+    // ---- scale: subjects of 4 KiB .. ~1.3 MiB.  The case index walks a grid block size B x multiple q x family.  What sits on / next to
+    // the multiple q*B, per family: the distance from the beginning of the text - or from the place where the previous search ended - to a
+    // separator / pattern occurrence that straddles or touches that point (with match-free stretches of 64 KiB and more in front of it);
+    // the number of pieces / tokens / replaced occurrences (past 255 and 65535); the length of a run of delimiters or of a token; the
+    // number of densely packed pattern occurrences of a growing / shrinking replace.
+    {
+        vrt::require("scale.cases", 200);
+        vrt::require("scale.planted.cases", 80);
+        vrt::require("scale.planted.occurrence_straddles_block_boundary", 80);
+        vrt::require("scale.planted.measured_from.beginning", 40);
+        vrt::require("scale.planted.measured_from.previous_occurrence", 40);
+        vrt::require("scale.planted.match_free_stretch>=64KiB", 40);
+        vrt::require("scale.planted.long_separator", 10);
+        vrt::require("scale.many_pieces.cases", 40);
+        vrt::require("scale.token_runs.cases", 40);
+        vrt::require("scale.token_runs.token_edge_aliases_delimiter", 20);
+        vrt::require("scale.dense_replace.cases", 40);
+        vrt::require("scale.subject>=64KiB", 40);
+        vrt::require("scale.subject>=256KiB", 20);
+        vrt::require("split.pieces>255", 20);
+        vrt::require("split.pieces>65535", 10);
+        vrt::require("split.max_near_255_or_65535", 20);
+        vrt::require("tokenize.tokens>255", 10);
+        vrt::require("tokenize.tokens>65535", 5);
+        vrt::require("replace.occurrences>=1000", 20);
+        vrt::require("replace.occurrences>65535", 5);
+        const std::vector<size_t> &BL = scale::blocks();
+        const uint64_t G = BL.size() * 8;
+        enum { PLANT_BEGIN, PLANT_AFTER_PREFIX, MANY_PIECES, TOKEN_RUNS, DENSE_REPLACE, NKINDS };
+        vrt::phase("scale", vrt::tier_count(NKINDS * G, 20 * NKINDS * G), [&](uint64_t i, Rng &r) {
+            size_t B = BL[i % BL.size()], q = 1 + (i / BL.size()) % 8;
+            const unsigned kind = static_cast<unsigned>((i / G) % NKINDS);
+            const size_t cap = 1u << 20;
+            while (q > 1 && q * B > cap) q = (q + 1) / 2;
+            const size_t dist = q * B;
+            size_t subject_len = 0;
+            if (kind == PLANT_BEGIN || kind == PLANT_AFTER_PREFIX) {
+                static const char *const nalpha[] = {"ab", "aAbB", "iI", "Kk", "a`{", ":", ",;", "zZ9", "ab\x80", "Ii\xc9"};
+                S al = nalpha[r.below(sizeof(nalpha) / sizeof(nalpha[0]))];
+                const Background bg = pick_background(r, al);
+                if (r.chance(1, 6)) al.push_back('\0');
+                const size_t nlen = r.chance(1, 8) ? 1 : r.chance(1, 3) ? 9 + r.below(292) : 2 + r.below(7);
+                const S n = gen::bytes_over(r, nlen, al);
+                const bool exact = r.chance(1, 2);
+                // where the occurrences go: the gap between the place a search (re)starts and the point an occurrence straddles is a grid distance
+                std::vector<size_t> ats;
+                size_t pos = 0, straddling = 0, long_gaps = 0;
+                if (kind == PLANT_AFTER_PREFIX) { const size_t p0 = r.below(48); ats.push_back(p0); pos = p0 + nlen; }
+                const unsigned nocc = 1 + static_cast<unsigned>(r.below(4));
+                for (unsigned j = 0; j < nocc; ++j) {
+                    size_t gap = dist;
+                    if (j > 0 && r.chance(1, 2)) gap = (1 + r.below(4)) * scale::block(r, 262144);
+                    if (j > 0 && pos + gap + nlen > cap + 200000) break;
+                    const size_t back = (nlen >= 2 && r.chance(3, 4)) ? 1 + r.below(nlen - 1) : r.chance(1, 2) ? 0 : nlen;
+                    const long d = r.chance(1, 5) ? scale::nudge(r) : 0;
+                    long at = static_cast<long>(pos + gap) + d - static_cast<long>(back);
+                    if (at < static_cast<long>(pos)) at = static_cast<long>(pos);
+                    if (back > 0 && back < nlen && static_cast<size_t>(at) + back == pos + gap) ++straddling;
+                    if (static_cast<size_t>(at) - pos >= 65536) ++long_gaps;
+                    ats.push_back(static_cast<size_t>(at));
+                    pos = static_cast<size_t>(at) + nlen;
+                }
+                const size_t margin = r.chance(1, 3) ? r.below(40) : r.chance(1, 2) ? 1000 + r.below(70000) : 131072 + r.below(70000);
+                const size_t len = pos + margin;
+                S h = make_background(r, len, bg);
+                for (size_t at : ats) plant_in(h, at, spelled(r, n, exact), bg);
+                vrt::Box<ST::string> st(vrt::mk(h));
+                const size_t K = ats.size();
+                const size_t maxes[] = {K, K ? K - 1 : 0, 1, 0, K + 1, 2};
+                const bool ci1 = r.chance(1, 2);
+                split_case(st, h, n, SMAX, ci1);
+                split_case(st, h, n, SMAX, !ci1);
+                split_case(st, h, n, maxes[r.below(6)], r.chance(1, 2));
+                S to;
+                switch (r.below(6)) {
+                case 0: to = ""; break;
+                case 1: to = S(nlen, '#'); break;
+                case 2: to = n + n; break;
+                case 3: to = S(nlen > 1 ? nlen - 1 : 0, '-'); break;
+                case 4: to = S(nlen + 1 + r.below(5), '+'); break;
+                default: to = gen::bytes_over(r, 1 + r.below(300), "#-+"); break;
+                }
+                replace_case(st, h, n, to, ci1);
+                replace_case(st, h, n, to, !ci1);
+                if (vrt::str_of(*st) != h) vrt::violation("C09:split:subject-changed", scale::brief(h));
+                vrt::count("scale.planted.cases");
+                vrt::count(kind == PLANT_BEGIN ? "scale.planted.measured_from.beginning" : "scale.planted.measured_from.previous_occurrence");
+                if (kind == PLANT_BEGIN && K > 1) vrt::count("scale.planted.measured_from.previous_occurrence");
+                if (straddling) vrt::count("scale.planted.occurrence_straddles_block_boundary");
+                if (long_gaps) vrt::count("scale.planted.match_free_stretch>=64KiB");
+                if (nlen >= 9) vrt::count("scale.planted.long_separator");
+                subject_len = len;
+                if (vrt::want_sample("scale") && K > 1 && straddling)
+                    vrt::sample("scale", sfmt("subject %s sep=%s block=%zu x %zu: %zu occurrence(s), first at %zu, last at %zu, each planted a grid distance behind the place the previous search ended; replacement of %zu bytes",
+                                              scale::brief(h, ats[K - 1]).c_str(), show(n).c_str(), B, q, K, ats[0], ats[K - 1], to.size()));
+            } else if (kind == MANY_PIECES) {
+                size_t cnt = dist;
+                while (cnt > 300000) cnt /= 2;
+                cnt = static_cast<size_t>(std::max<long>(2, static_cast<long>(cnt) + scale::nudge(r)));
+                const bool one = r.chance(3, 4);
+                S sep;
+                if (one) sep = S(1, "," ";" "a" "|" "\x01" "\x7f" "Z"[r.below(7)]);
+                else sep = gen::bytes_over(r, 2 + r.below(r.chance(1, 4) ? 299 : 7), r.chance(1, 2) ? S(",;") : S("aAb,"));
+                if (!one) cnt = std::max<size_t>(2, std::min(cnt, (cap - 1) / (sep.size() + 2)));
+                const bool exact = r.chance(1, 2);
+                static const char *const units[] = {"x", "y", "\xc3\xa9", "X", "."};
+                const unsigned nunits = 1 + static_cast<unsigned>(r.below(5));
+                const unsigned empty_in = 2 + static_cast<unsigned>(r.below(6));      // one piece in that many is empty
+                S s;
+                s.reserve(cnt * (sep.size() + 3));
+                for (size_t p = 0; p < cnt; ++p) {
+                    const uint64_t v = r.next();
+                    size_t plen = (v & 0xFF) % empty_in == 0 ? 0 : 1 + ((v >> 8) & 3);
+                    if (((v >> 16) & 0x3FF) == 0) plen = 16 + ((v >> 26) & 31);                        // a piece that needs heap storage
+                    if (((v >> 32) & 0xFFFF) == 0) plen = 4096 + ((v >> 48) & 0xFF);
+                    for (size_t k = 0; k < plen; ++k) s += units[(v >> (40 + 2 * (k & 7))) % nunits];
+                    if (p + 1 < cnt) s += spelled(r, sep, exact);
+                }
+                vrt::Box<ST::string> st(vrt::mk(s));
+                const size_t near_count[] = {cnt - 1, cnt - 2, cnt, SMAX, SMAX, SMAX - 1};
+                const size_t near_width[] = {254, 255, 256, 257, 65534, 65535, 65536, 65537, cnt / 2};
+                const bool ci1 = r.chance(1, 2);
+                split_case(st, s, sep, near_count[r.below(6)], ci1);
+                const size_t m2 = near_width[r.below(9)];
+                split_case(st, s, sep, m2, !ci1);
+                if (m2 < cnt - 1) vrt::count("split.max_near_255_or_65535");
+                if (sep.find('\0') == S::npos) {
+                    S d = sep;
+                    if (r.chance(1, 2)) d += '#';
+                    tokenize_case(st, s, &d);
+                }
+                if (cnt <= 70000 || r.chance(1, 3)) {
+                    static const char *const tos[] = {"", "#", "##", "-+-+-"};
+                    const S to = r.chance(1, 5) ? sep + sep : S(tos[r.below(4)]);
+                    replace_case(st, s, sep, to, r.chance(1, 2));
+                }
+                if (vrt::str_of(*st) != s) vrt::violation("C09:split:subject-changed", scale::brief(s));
+                vrt::count("scale.many_pieces.cases");
+                subject_len = s.size();
+                if (vrt::want_sample("scale.many_pieces"))
+                    vrt::sample("scale.many_pieces", sfmt("subject %s: %zu pieces (block=%zu x %zu) joined by sep=%s, max_splits %zu", scale::brief(s).c_str(), cnt, B, q, show(sep).c_str(), m2));
+            } else if (kind == TOKEN_RUNS) {
+                static const std::vector<S> sets = [] {
+                    std::vector<S> o = {",;", " \t", "|", "\xc2\xa0 ", "\xe9\x80,", ",", "\x7f\x01"};
+                    S punct;
+                    for (int ch = 0x20; ch < 0x40; ++ch) punct += static_cast<char>(ch);
+                    o.push_back(punct);
+                    return o;
+                }();
+                const bool dflt = r.chance(1, 4);
+                const S set = dflt ? S(" \t\r\n") : sets[r.below(sets.size())];
+                S non;
+                for (int ch = 1; ch < 256; ++ch) if (!ref::in_set(set, static_cast<char>(ch))) non += static_cast<char>(ch);
+                S tok_alpha;
+                for (int k = 0; k < 3; ++k) tok_alpha += non[r.below(non.size())];
+                if (r.chance(1, 8)) tok_alpha.push_back('\0');
+                // segments: run, token, run, token ... run; one of them has the grid length, the others are short or have another grid length
+                const size_t nseg = 2 * (1 + r.below(5)) + 1, big = r.below(nseg);
+                S s;
+                size_t aliased = 0;
+                for (size_t g = 0; g < nseg; ++g) {
+                    const bool is_run = g % 2 == 0;
+                    size_t sl;
+                    if (g == big) sl = static_cast<size_t>(std::max<long>(1, static_cast<long>(dist) + scale::nudge(r)));
+                    else if (r.chance(1, 4)) sl = scale::length(r, 65536, 16);
+                    else sl = (is_run && (g == 0 || g + 1 == nseg)) ? r.below(20) : 1 + r.below(20);
+                    if (is_run) { s += fill_random(r, sl, set); continue; }
+                    S tk = r.chance(1, 3) ? S(sl, tok_alpha[0]) : fill_random(r, sl, tok_alpha);
+                    char a;
+                    if (r.chance(1, 2) && alias_of_member(r, set, a)) { tk[0] = a; ++aliased; }
+                    if (r.chance(1, 2) && alias_of_member(r, set, a)) { tk[sl - 1] = a; ++aliased; }
+                    s += tk;
+                }
+                vrt::Box<ST::string> st(vrt::mk(s));
+                tokenize_case(st, s, dflt ? nullptr : &set);
+                const char c0 = set[0];
+                if (r.chance(1, 3) && c0 > 0 && static_cast<size_t>(std::count(s.begin(), s.end(), c0)) <= 300000) {
+                    // the same text cut at every single delimiter byte: a run of delimiters is a run of empty pieces
+                    const size_t near_width[] = {SMAX, 255, 256, 65535, 65536, 1};
+                    split_case(st, s, S(1, c0), near_width[r.below(6)], r.chance(1, 2));
+                }
+                if (vrt::str_of(*st) != s) vrt::violation("C09:tokenize:subject-changed", scale::brief(s));
+                vrt::count("scale.token_runs.cases");
+                if (aliased) vrt::count("scale.token_runs.token_edge_aliases_delimiter");
+                if (big % 2 == 0) vrt::count("scale.token_runs.long_run_of_delimiters"); else vrt::count("scale.token_runs.long_token");
+                subject_len = s.size();
+                if (vrt::want_sample("scale.token_runs"))
+                    vrt::sample("scale.token_runs", sfmt("subject %s delims=%s%s: %zu segments (runs of delimiters and tokens alternating), segment #%zu is %zu x %zu long",
+                                                         scale::brief(s).c_str(), show(set).c_str(), dflt ? "(default)" : "", nseg, big, B, q));
+            } else {
+                // DENSE_REPLACE: K occurrences (K on the grid) packed with gaps of 0..3 bytes, replaced by something shorter / longer
+                size_t K = dist;
+                while (K > 150000) K /= 2;
+                K = static_cast<size_t>(std::max<long>(2, static_cast<long>(K) + scale::nudge(r)));
+                S s, from, to;
+                const bool self_overlap = r.chance(1, 6);
+                if (self_overlap) {
+                    static const char *const pats[] = {"aa", "aaa", "aA", "abab", "aaaaaaaaa"};
+                    from = pats[r.below(5)];
+                    s = "x";
+                    if (from == "abab") for (size_t k = 0; k < K; ++k) s += (k % 2 ? 'b' : 'a'); else s += S(K, 'a');
+                    if (r.chance(1, 2)) for (size_t k = 1; k < s.size(); k += 1 + r.below(7)) s[k] = static_cast<char>(s[k] - 32);
+                    s += "yz";
+                } else {
+                    static const char *const falpha[] = {"ab", "aAbB", "iI", ",;", "Kk"};
+                    const S al = falpha[r.below(5)];
+                    const size_t flen = r.chance(1, 4) ? 1 : r.chance(1, 3) ? 9 + r.below(292) : 2 + r.below(7);
+                    from = gen::bytes_over(r, flen, al);
+                    K = std::max<size_t>(2, std::min(K, cap / (flen + 2)));
+                    const Background bg = pick_background(r, al);
+                    const bool exact = r.chance(1, 2);
+                    const S filler = bg.utf8_pairs ? S("x") : bg.alphabet;
+                    s.reserve(K * (flen + 3));
+                    for (size_t k = 0; k < K; ++k) {
+                        const uint64_t v = r.next();
+                        for (size_t g = (v & 3); g > 0; --g) s += filler[(v >> (8 * g)) % filler.size()];
+                        s += spelled(r, from, exact);
+                    }
+                    s += filler[0];
+                }
+                const size_t room = (size_t(4) << 20) / K;         // keep the result under ~4 MiB + the subject
+                switch (r.below(6)) {
+                case 0: to = ""; break;
+                case 1: to = S(from.size(), '#'); break;
+                case 2: to = S(from.size() - 1, '-'); break;
+                case 3: to = S(from.size() + 1, '+'); break;
+                case 4: to = from + from.substr(0, std::min(from.size(), room)); break;
+                default: to = gen::bytes_over(r, 1 + r.below(std::min<size_t>(300, std::max<size_t>(1, room))), "#-+"); break;
+                }
+                vrt::Box<ST::string> st(vrt::mk(s));
+                const bool ci1 = r.chance(1, 2);
+                replace_case(st, s, from, to, ci1);
+                if (r.chance(1, 2)) replace_case(st, s, from, to, !ci1);
+                if (r.chance(1, 3)) {
+                    const size_t maxes[] = {SMAX, K, K - 1, 65535, 65536, 255};
+                    split_case(st, s, from, maxes[r.below(6)], r.chance(1, 2));
+                }
+                if (vrt::str_of(*st) != s) vrt::violation("C09:replace:subject-changed", scale::brief(s));
+                vrt::count("scale.dense_replace.cases");
+                if (self_overlap) vrt::count("scale.dense_replace.self_overlapping_run");
+                subject_len = s.size();
+                if (vrt::want_sample("scale.dense_replace") && !self_overlap)
+                    vrt::sample("scale.dense_replace", sfmt("subject %s: %zu occurrences (block=%zu x %zu) of from=%s packed 0..3 bytes apart, replacement of %zu bytes",
+                                                            scale::brief(s).c_str(), K, B, q, show(from).c_str(), to.size()));
+            }
+            vrt::count("scale.cases");
+            if (subject_len >= 65536) vrt::count("scale.subject>=64KiB");
+            if (subject_len >= 262144) vrt::count("scale.subject>=256KiB");
+            if (subject_len >= 1u << 20) vrt::count("scale.subject>=1MiB");
+        });
+    }
+
+    // ---- pieces / tokens / results of 256 MiB and more out of a text just above that size (such texts come from the library's own
+    // non-validating producers).  The const char* form of split builds its pieces through the validating constructor, whose documented
+    // contract is "less than 256 MiB", so it gets the same text cut in the middle instead (two pieces of 128 MiB).
+    // About 0.6 GB and 2-3 s per case, two cases.
+    if (vrt::opt().scale >= 1.0) {
+        vrt::require("huge.results", 8);
+        vrt::phase("huge_pieces", 2, [&](uint64_t i, Rng &) {
+            const size_t total = (size_t(1) << 28) + 50, half = total / 2, s1 = 20, s2 = total - 8;
+            vrt::cur_printf("pieces of a %zu-byte text\n", total);
+            ST::char_buffer b;
+            b.allocate(total, 'x');
+            b[s1] = 'A'; b[s1 + 1] = '='; b[half] = '|'; b[s2] = 'A'; b[s2 + 1] = '=';
+            const ST::string L = ST::string::from_validated(std::move(b));
+            const char *base = L.c_str();
+            auto piece = [&](const char *op, const ST::string &p, size_t from, size_t n) {
+                vrt::evals();
+                vrt::count("huge.results");
+                if (p.size() != n || memcmp(p.c_str(), base + from, n) != 0 || p.c_str()[n] != 0)
+                    vrt::violation(sfmt("C09:%s:wrong-pieces", op), sfmt("huge subject (%zu bytes): piece of %zu bytes, expected the %zu bytes from offset %zu", total, p.size(), n, from));
+            };
+            auto pieces = [&](const char *op, const std::vector<ST::string> &v, std::initializer_list<std::pair<size_t, size_t>> want) {
+                if (v.size() != want.size()) {
+                    vrt::violation(sfmt("C09:%s:wrong-pieces", op), sfmt("huge subject (%zu bytes): %zu pieces, expected %zu", total, v.size(), want.size()));
+                    return;
+                }
+                size_t k = 0;
+                for (const auto &w : want) piece(op, v[k++], w.first, w.second);
+            };
+            try {
+                if (i == 0) {
+                    const ST::string sep_cs = ST_LITERAL("A="), sep_ci = ST_LITERAL("a=");
+                    pieces("split:ST::string", L.split(sep_cs, 1), {{0, s1}, {s1 + 2, total - s1 - 2}});
+                    pieces("split:ST::string", L.split(sep_ci, ST_AUTO_SIZE, ST::case_insensitive), {{0, s1}, {s1 + 2, s2 - s1 - 2}, {s2 + 2, total - s2 - 2}});
+                    pieces("split:ST::string", L.split(ST_LITERAL("no such separator")), {{0, total}});
+                    pieces("split:char", L.split('A', 1), {{0, s1}, {s1 + 1, total - s1 - 1}});
+                    pieces("split:char", L.split('a', ST_AUTO_SIZE, ST::case_insensitive), {{0, s1}, {s1 + 1, s2 - s1 - 1}, {s2 + 1, total - s2 - 1}});
+                    {
+                        const ST::string R = L.replace(sep_ci, ST_LITERAL("--+"), ST::case_insensitive);
+                        vrt::evals();
+                        vrt::count("huge.results");
+                        const char *g = R.c_str();
+                        bool ok = R.size() == total + 2 && g[R.size()] == 0;
+                        ok = ok && memcmp(g, base, s1) == 0 && memcmp(g + s1, "--+", 3) == 0 && memcmp(g + s1 + 3, base + s1 + 2, s2 - s1 - 2) == 0
+                             && memcmp(g + s2 + 1, "--+", 3) == 0 && memcmp(g + s2 + 4, base + s2 + 2, total - s2 - 2) == 0;
+                        if (!ok) vrt::violation("C09:replace:str,str:wrong-result", sfmt("huge subject (%zu bytes), 2 occurrences, 3 bytes for 2: result of %zu bytes (fnv %016llx)", total, R.size(),
+                                                                                         static_cast<unsigned long long>(vrt::fnv1a(g, std::min<size_t>(R.size(), 4096)))));
+                    }
+                } else {
+                    pieces("tokenize", L.tokenize("=A"), {{0, s1}, {s1 + 2, s2 - s1 - 2}, {s2 + 2, total - s2 - 2}});
+                    pieces("split:cstr", L.split("|"), {{0, half}, {half + 1, total - half - 1}});
+                    pieces("split:cstr", L.split("|x", 1), {{0, half}, {half + 2, total - half - 2}});
+                }
+            } catch (const std::exception &e) {
+                vrt::violation(sfmt("C09:huge-pieces:%s", vrt::demangle(typeid(e).name()).c_str()), e.what());
+            }
+        });
+    }
     vrt::alloc::check_pairing("split");
 }
 
